@@ -249,6 +249,8 @@ def _compare_to_previous_run_info(
     except Exception as e:  # noqa: BLE001
         msg = f"Could not load previous run info: {e}, cannot use `cleanup=False`."
         raise ValueError(msg) from None
+    # The previous run recorded the *constructed* internal shapes (caller's dict + `PipeFunc.internal_shape`)
+    internal_shapes = _construct_internal_shapes(dict(internal_shapes or {}), pipeline)
     if internal_shapes != old.internal_shapes:
         msg = "Internal shapes do not match previous run, cannot use `cleanup=False`."
         raise ValueError(msg)
